@@ -29,3 +29,7 @@ func Fuel(n int)                               {}
 func Obs(key string, val interface{})          {}
 func Symbolic() bool                           { return true }
 func Output() string                           { return "" }
+
+// IntMode lets the engine discharge queries with the mathematical-integer
+// printer whenever its no-wrap interval analysis succeeds (natively a no-op).
+func IntMode(on bool) {}
